@@ -8,7 +8,7 @@ LEAN_MODULES = ["MpirProofs.Props.C09"]
 THEOREMS = ["Mpir.Root.perfsqr_filters_sound", "Mpir.Root.perfect_square_p_iff", "Mpir.Root.sqrtrem_normalise_ok",
             "Mpir.Root.mpz_root_sign_flag", "Mpir.Root.sqrtrem1_spec", "Mpir.Root.sqrtrem2_spec'", "Mpir.Root.dc_sqrtrem_spec", "Mpir.Root.mpn_sqrtrem_spec",
             "Mpir.Root.mpn_perfect_square_p_spec", "Mpir.Root.mpz_sqrt_spec", "Mpir.Root.root_final_adjust",
-            "Mpir.Root.perfect_power_p_iff_partial"]
+            "Mpir.Root.perfect_power_p_iff_partial", "Mpir.Root.mpz_root_huge_index"]
 GEN = [gen_sqrt_tabs]
 TRUSTED = ["hand-written models lean/Mpir/Model/Root.lean: word level for mpn_sqrtrem1/2, mod_34lsub1 and the PERFSQR tests, "
            "value level for mpn_dc_sqrtrem, mpn_sqrtrem, mpn_rootrem(_basecase/_internal), mpz wrappers, perfpow.c "
@@ -16,7 +16,8 @@ TRUSTED = ["hand-written models lean/Mpir/Model/Root.lean: word level for mpn_sq
            "translator tools/gen_sqrt_tabs.py (approx_tab, sq_res_0x100, PERFSQR_MOD_TEST constants after gcc -E, perfpow primes[])",
            "mpn_rootrem: the Newton iterations (rootrem.c, rootrem_basecase.c) are modelled and run differentially only; theorems about "
            "mpz_root/mpz_rootrem/mpz_perfect_power_p take the contract of mpn_rootrem (RootremSpec) as a hypothesis; "
-           "only the final adjustment is proved (root_final_adjust)"]
+           "only the final adjustment (root_final_adjust) and the root-is-1 exit (mpz_root_huge_index, unconditional for "
+           "n >= bit length of |u|) are proved"]
 ASSUMPTIONS = ["the driver answers with the specification (Nat.sqrt, bitwise iroot, exhaustive-exponent perfect-power search) and asserts "
                "model == specification on every op (`!modelspec`)",
                "mpn_sqrtrem1, mpn_sqrtrem2, mpn_dc_sqrtrem are static: reached through mpn_sqrtrem with 1, 2 and more limbs",
